@@ -108,6 +108,13 @@ theorem C19_second_pass_hash_from_expansion :
     passText 100 "a.c" (cps "#define H #\nH error\n") = .ok (cps "# error\n") ∧
     passText 100 "b.c" (cps "# error\n") = .error (.pp .errorDirective) := by decide +kernel
 
+/-- no `#` of the source is anywhere but at the beginning of a line, and still one survives as a non-directive: an argument
+    next to `##` is copied without macro replacement (6.10.3.3), so the `# pragma p` line inside the invocation is not executed
+    as a directive but substituted — `#define K(x,y) x##y` / `K(,` / `# pragma p` / `)` / `z` -/
+theorem C19_second_pass_hash_from_raw_argument :
+    passText 100 "a.c" (cps "#define K(x,y) x##y\nK(,\n# pragma p\n)\nz\n") = .ok (cps "# pragma p\nz\n") ∧
+    passText 100 "b.c" (cps "# pragma p\nz\n") = .ok (cps "z\n") := by decide +kernel
+
 /-- the token list the first pass holds for `#undef linux` / `linux` -/
 def survivingName : List Tok := [⟨.ident, [108, 105, 110, 117, 120], true, false⟩]
 
